@@ -6,29 +6,29 @@ CHECKS = {
  "C01": ("exploration", "runtime monitoring: hostile workload in child worker processes; crash/fatal/hang observers, structured-error oracle, scanner step-count hook",
          "Every build runs in a worker process; panics are caught per case, process deaths (stack overflow, runtime throw, memory cap) are attributed to the case in flight, hangs to a watchdog with isolated re-run; the scanner's work is counted through the step hook (bound 3*len+64 per scan). Exploration level: held on the executions produced (hostile byte strings, all macro digraphs on <=3 macros, all include digraphs on <=3 files, root specials), not a proof of totality.", "§3 C01"),
  "C04": ("exploration", "runtime monitoring: reference JDoc-Exchange shape validator over every accepted build of a hostile/targeted workload",
-         "Every accepted build is serialised with ToJson/ToJsonIndent; outputs are parsed (order-preserving), compared up to whitespace and validated against a shape validator written from the JDoc Exchange 2.0.0 layout.", "§3 C04"),
+         "Every accepted build is serialised with ToJson/ToJsonIndent; outputs are parsed (order-preserving), compared up to whitespace and validated against a shape validator written from the JDoc Exchange 2.0.0 layout; every project outside the mutant stream is built again and the two accessors are called concurrently on that one catalog (delays at the yield hooks), same oracle; a worker that dies or hangs is a violation.", "§3 C04"),
  "C05": ("exploration", "runtime monitoring: cross-reference closure checker over serialised catalogs",
          "Every accepted valid-UTF-8 catalog is parsed and all references are resolved in both directions (ids, tags<->interactions per protocol, usedUserTypes/Enums, path variables, codes, bodies, version).", "§3 C05"),
  "C06": ("exploration", "runtime monitoring: repeated builds in one process (re-randomised map iteration) and across fresh processes, byte comparison",
-         "Each project is built 12/40 times in one process and in two more processes; catalog bytes, OpenAPI bytes and the full error tuple must be identical. Multi-fault documents give every map-iterating error path >=2 candidates.", "§3 C06"),
+         "Each project is built 12/40 times in one process and in two more processes; catalog bytes, OpenAPI bytes and the full error tuple must be identical. Multi-fault documents (incl. random reference graphs of user types with 2-3 faulty types) give every map-iterating error path >=2 candidates.", "§3 C06"),
  "C07": ("exploration", "runtime monitoring: reference line/column/quote calculator on every rejected build; include-trace scenarios with known chains",
-         "Location part on all rejected cases of the hostile workload; trace part on generated include chains/diamonds/double inclusions under LF/CRLF/CR where the offending occurrence is unambiguous.", "§3 C07"),
+         "Location part on all rejected cases of the hostile workload; index == file length must carry the line/column of a cursor at the end of the file; every include trace must be a chain (each frame is an INCLUDE that resolves to the file of the frame before it, ending in the root); trace part on generated include chains (also same-named files in nested directories)/diamonds/double inclusions under LF/CRLF/CR where the offending occurrence is unambiguous.", "§3 C07"),
  "C11": ("exploration", "runtime monitoring against an executable reference automaton; exhaustive enumeration of all token sequences of length <=3",
          "All 378,504 sequences of <=3 tokens over 72 tokens plus seeded longer ones are built; verdict, error class, error line and the scan-phase tree (phase hook) are compared with the reference automaton. Exhaustive within the stated bound.", "§3 C11"),
  "C12": ("exploration", "runtime monitoring: lexeme well-formedness + coverage-completeness monitor on the public scanner; exactness against the renderer's token map",
          "Every lexeme stream of the hostile workload is checked for bounds, order, per-directive grammar, per-type content and for uncovered non-trivia bytes between lexemes; rendered documents are compared with the renderer's ground-truth token map.", "§3 C12"),
  "C13": ("exploration", "runtime monitoring: exhaustive breadth-first probing of the scanner over the 256-byte alphabet against an independent keyword list",
-         "Every live keyword prefix x 256 bytes + EOF and every completed keyword x 256 bytes + EOF in four start contexts (723k probes); exhaustive for the stated space.", "§3 C13"),
+         "Every live keyword prefix x 256 bytes + EOF and every completed keyword x 256 bytes + EOF in four start contexts (723k probes), plus all 530 words x 257 followers and ~4000 near misses at a line start inside a Description text in three contexts (493k probes); exhaustive for the stated space.", "§3 C13"),
  "C14": ("fault_enumeration", "runtime monitoring: file-access hook as deciding observer over an enumerated parameter space and enumerated include graphs; strace cross-check",
-         "All strings over {a . / \\ ~} up to length 5/7 (bare and quoted) and hostile extras against a sandbox with decoys; all include digraphs on <=3 files and sampled 4-5 file graphs; thorough tier cross-checks the hook against strace.", "§3 C14"),
+         "All strings over {a . / \\ ~} up to length 5/7 (bare and quoted) and hostile extras against a sandbox with decoys; all include digraphs on <=3 files and sampled 4-5 file graphs; seeded include trees over six nested directories (same parameter text resolving differently per directory) against a reference resolver; thorough tier cross-checks the hook against strace.", "§3 C14"),
  "C16": ("exploration", "runtime monitoring: history check of accessor call sequences against per-accessor canonical values",
-         "All 780 (quick) / 19,530 (thorough) call sequences over the five accessors on fresh builds of selected projects, sampled length-6 sequences on the rest; every call must return its canonical bytes.", "§3 C16"),
+         "All 780 (quick) / 19,530 (thorough) call sequences over the five accessors on fresh builds of selected projects, sampled length-6 sequences on the rest; every call must return its canonical bytes; a call that never returns is a violation.", "§3 C16"),
  "C17": ("exploration", "runtime monitoring: reference OpenAPI-3.0.3 subset validator over every accepted build; panic observer",
          "Every accepted build is exported; a panic is a violation, an error value is counted, a document is validated against the catalog it came from.", "§3 C17"),
  "C18": ("exploration", "Go race detector (-race) over concurrent builds/serialisations with jitter at yield hooks, plus comparison with a sequential baseline",
          "Workers built with -race run 16 goroutines x 3 rounds building different projects and 8 goroutines serialising one catalog; race reports are counted from the log and every result is compared with the sequential baseline.", "§3 C18"),
  "C19": ("fault_enumeration", "runtime monitoring: enumeration of all banned-kind subsets of size <=2 over projects with known kind occurrences; differential comparison with the unrestricted build",
-         "496 configurations x projects x 2 APIs; presence of a kind is read from the phase hook of the unrestricted build; present => not-allowed error on such a directive, absent => identical result.", "§3 C19"),
+         "496 configurations x projects x 2 APIs; presence of a kind is read from the phase hook of the unrestricted build; present => not-allowed error on such a directive with a truthful include trace (chain rule), absent => identical result.", "§3 C19"),
 }
 
 NOT_YET = {}
